@@ -839,6 +839,18 @@ class Interp:
             return self.apply(BoundOp("__getitem__" if opname == "getitem" else "__contains__", args[0]), [args[1]], env, depth)
         if isinstance(c.func, ast.Name) and isinstance(env.get(c.func.id), BoundOp):
             return self.apply(env[c.func.id], args, env, depth)
+        if isinstance(c.func, ast.Attribute) and isinstance(c.func.value, ast.Name) and c.func.value.id == "self" and self.cls is not None \
+                and self.prog.lookup_method(self.cls, c.func.attr) is None:
+            cv_ = self._class_const(self.cls, c.func.attr, depth)          # a class-level callable constant (KEY = attrgetter(...)) called through self
+            if isinstance(cv_, BoundOp):
+                return self.apply(cv_, args, env, depth)
+        if isinstance(c.func, ast.Attribute) and isinstance(c.func.value, ast.Name) and c.func.value.id not in env and c.func.value.id != "self" and self.fn_stack:
+            full_ = self.prog.resolve_name(self.fn_stack[-1].module, c.func.value.id)
+            ci_ = self.prog.classes.get(full_) if full_ else None
+            if ci_ is not None and self.prog.lookup_method(ci_, c.func.attr) is None:
+                cv_ = self._class_const(ci_, c.func.attr, depth)           # ... or through the class name
+                if isinstance(cv_, BoundOp):
+                    return self.apply(cv_, args, env, depth)
         # calling a value: a local function (closure) or a symbolic callable
         fval = None
         if isinstance(c.func, ast.Name) and isinstance(env.get(c.func.id), (LocalFn, Sym)):
@@ -1479,7 +1491,8 @@ def _install():
             for st_ in k_.node.body:
                 tg_ = st_.targets[0] if isinstance(st_, ast.Assign) and len(st_.targets) == 1 else st_.target if isinstance(st_, ast.AnnAssign) else None
                 if isinstance(tg_, ast.Name) and tg_.id == attr and getattr(st_, "value", None) is not None \
-                        and isinstance(st_.value, (ast.Constant, ast.List, ast.Tuple, ast.Dict, ast.Set, ast.Name, ast.Attribute)):
+                        and (isinstance(st_.value, (ast.Constant, ast.List, ast.Tuple, ast.Dict, ast.Set, ast.Name, ast.Attribute))
+                             or (isinstance(st_.value, ast.Call) and call_name(st_.value) in ("attrgetter", "itemgetter", "methodcaller", "frozenset", "tuple"))):
                     v_ = self.ev(st_.value, {}, depth + 1)
                     return None if v_ is UNKNOWN else v_
         return None
